@@ -110,6 +110,20 @@ class Plain(Named):
 class Employee(Plain):
     y: int = 0
 
+@dataclass
+class Cat:
+    meow_level: int = 0
+
+@dataclass
+class Dog:
+    wag: Optional[str] = None
+
+def pet() -> Union[Cat, Dog]:
+    return CUR[0]
+
+def pets() -> List[Union[Cat, Dog]]:
+    return [CUR[0]]
+
 def shop() -> Shop:
     return Shop("s")
 
@@ -127,7 +141,9 @@ EXPECTED_TYPES = {
         "und": "Int", "subs": "[Sub!]!", "fa": "Int!", "fb": "String", "lit": "Lit!", "double": "Int!",
     },
     "Sub": {"label": "String!", "count": "Int!"},
-    "Query": {"item": "Item!", "items": "[Item!]!", "find": "Int!", "put": "String!", "half": "Int", "shop": "Shop!", "employee": "Employee!", "named": "Named!"},
+    "Query": {"item": "Item!", "items": "[Item!]!", "find": "Int!", "put": "String!", "half": "Int", "shop": "Shop!", "employee": "Employee!", "named": "Named!", "pet": "CatOrDog!", "pets": "[CatOrDog!]!"},
+    "Cat": {"meowLevel": "Int!"},
+    "Dog": {"wag": "String"},
     "InpInput": {"a": "Int!", "b": "String!"},
 }
 INT32 = 2**31 - 1
@@ -139,7 +155,9 @@ def jobs(prop, tier, seed):
         for as_list in (False, True):
             for ntags, nsubs in ((0, 1), (2, 0)) if tier == "quick" else ((0, 0), (1, 1), (2, 2), (0, 2), (2, 0)):
                 out.append(dict(harness="C19", variant="output", pid=f"output({al},list={as_list},{ntags},{nsubs})", aliaser=al, as_list=as_list, ntags=ntags, nsubs=nsubs, opts={}, bounds={}, budget_s=60 if tier == "quick" else 300))
-        out.append(dict(harness="C19", variant="args", pid=f"args({al})", aliaser=al, opts={}, bounds={}, budget_s=60 if tier == "quick" else 300))
+        out.append(dict(harness="C19", variant="union", pid=f"union({al})", aliaser=al, opts={}, bounds={}, budget_s=40))
+        for op in ("find", "put", "half"):
+            out.append(dict(harness="C19", variant="args", pid=f"args({al},{op})", aliaser=al, op=op, opts={}, bounds={}, budget_s=60 if tier == "quick" else 300))
     out.append(dict(harness="C19", variant="types", pid="types", aliaser="camel", opts={}, bounds={}, budget_s=20))
     return out
 
@@ -158,7 +176,7 @@ class Inst:
         self.al = to_camel_case if job["aliaser"] == "camel" else (lambda s: s)
         kw = {} if job["aliaser"] == "camel" else {"aliaser": self.al}
         self.schema = mod.graphql_schema(
-            query=[mod.item, mod.items, mod.find, mod.put, mod.Query(mod.half, error_handler=mod.half_handler), mod.shop, mod.employee, mod.named],
+            query=[mod.item, mod.items, mod.find, mod.put, mod.Query(mod.half, error_handler=mod.half_handler), mod.shop, mod.employee, mod.named, mod.pet, mod.pets],
             types=[mod.Shop, mod.Employee],
             **kw,
         )
@@ -173,7 +191,7 @@ class Inst:
             "graphql.execution.execute (graphql-core 3.2, traced)",
             "apischema.serialization / deserialization method trees of the partial methods",
         ]
-        self.expect_tags = {"output": ["compared"], "args": ["invoked", "refused"], "types": ["compared"]}[self.variant]
+        self.expect_tags = {"output": ["compared"], "union": ["compared"], "args": ["invoked", "refused"], "types": ["compared"]}[self.variant]
         self.assumptions = ["ints in the 32-bit range (GraphQL Int rule)", "subscriptions and async resolvers are outside (event loop)"]
         self.relax = ()
 
@@ -229,11 +247,34 @@ class Inst:
                 return Failure("field-value-differs-from-serialize", witness=v, extra={"field": k, "data": got[k], "expected": exp[k]})
         return None
 
+    # ------------------------------------------------------------------- union
+    def union(self, ctx: Ctx):
+        from apischema import serialization_method
+
+        ns = self.ns
+        v = ns["Cat"](self.i32(ctx, "m")) if ctx.flag("cat") else ns["Dog"](None if ctx.flag("none") else ctx.str("w", 1))
+        as_list = ctx.flag("list")
+        ns["CUR"][0] = v
+        ctx.witness = v
+        ctx.run_phase()
+        ml, wag = self.al("meow_level"), "wag"
+        body = "{ __typename ... on Cat { %s } ... on Dog { %s } }" % (ml, wag)
+        res = self.gql.graphql_sync(self.schema, "{ %s %s }" % ("pets" if as_list else "pet", body))
+        ctx.notes["tag:compared"] = True
+        if res.errors:
+            return Failure("query-errors", witness=v, extra={"errors": [str(e) for e in res.errors]})
+        got = res.data["pets"][0] if as_list else res.data["pet"]
+        exp = dict(serialization_method(type(v), aliaser=self.al, exclude_none=False)(v))
+        exp["__typename"] = type(v).__name__
+        if got != exp:
+            return Failure("union-member-differs-from-serialize", witness=v, extra={"data": got, "expected": exp})
+        return None
+
     # -------------------------------------------------------------------- args
     def args(self, ctx: Ctx):
         ns = self.ns
         LOG = ns["LOG"]
-        which = ctx.pick(["find", "put", "half"], "op")
+        which = self.job["op"]
         del LOG[:]
         if which == "half":
             n = self.i32(ctx, "n")
